@@ -185,6 +185,17 @@ def exhaustive_shapes(n):
             yield shape_script(kinds, el, finals)
 
 
+def exhaustive_handles4():
+    """All 4-node heaps held through plain handles: every edge subset (2^16, self loops included)
+    x every keep/drop assignment (2^4); one collection."""
+    pairs = [(i, j) for i in range(4) for j in range(4)]
+    for keep in range(16):
+        finals = [((keep >> i) & 1, 0) for i in range(4)]
+        for mask in range(1 << 16):
+            el = [pairs[b] for b in range(16) if mask >> b & 1]
+            yield shape_script(["a"] * 4, el, finals, tail=False)
+
+
 def sampled_exhaustive3(rng, count):
     """A random sample of the 3-node exhaustive scope (the whole scope runs in the thorough tier)."""
     pairs = [(i, j) for i in range(3) for j in range(3)]
@@ -650,7 +661,8 @@ def schedules(rng, heavy):
 def run(rep):
     rep.rule = ("(a/b) heap scripts alloc/alloc_view/handle/view/drop/edge/del-edge/gc: corpus, rings/chains, random "
                 "scripts (<= 10 nodes, <= 45 ops), random shapes (<= 6 nodes) and exhaustive shapes (every edge subset incl. "
-                "self loops x every created-as/handle/view assignment; <= 2 nodes quick, <= 3 nodes thorough); non-trivial = "
+                "self loops x every created-as/handle/view assignment; <= 2 nodes quick, <= 3 nodes thorough, plus all 2^20 "
+                "4-node handle-only heaps in thorough); non-trivial = "
                 "some gc of the script reclaims >= 1 object and keeps >= 1; distinct by script text. (c) generated Jsonnet "
                 "programs under gc period 0,1,2,3,7,default + 2 random periods: answer line incl. error detail, stack-trace "
                 "depth and std.trace output must be identical; non-trivial = program loads (no static error); (d) hist: "
@@ -662,40 +674,64 @@ def run(rep):
     ]
     regenerate_table()
     vlib.prelude(rep)
+    dynamic(rep)
+
+
+def search(rep):
+    """Failing-input search when the tie is broken before the proofs could be checked
+    (e.g. the extractor no longer understands data.rs): the dynamic parts still run."""
+    vlib.build_harness()
+    dynamic(rep)
+
+
+def dynamic(rep):
     rng = rep.rng
     thorough = rep.tier != "quick"
 
     # ---------------- (a) + (b) scripted heaps ----------------
-    scripts = [s.split(" ") for s in CORPUS_SCRIPTS] + ring_scripts()
-    for n in (1, 2):
-        scripts.extend(exhaustive_shapes(n))
-    if thorough:
-        scripts.extend(exhaustive_shapes(3))
-    else:
-        scripts.extend(sampled_exhaustive3(rng, 2500))
-    nrand = 1500 if not thorough else 60000
-    for _ in range(nrand):
-        scripts.append(random_script(rng, rng.randrange(4, 46), rng.choice((3, 4, 6, 10))))
-    nshape = 1500 if not thorough else 60000
-    for _ in range(nshape):
-        scripts.append(random_shape(rng, rng.choice((3, 3, 4, 4, 5, 6))))
-    cases = [{"key": " ".join(s), "ops": s} for s in scripts]
-    lines = ["gcscript " + c["key"] for c in cases]
-    io = vlib.impl(lines)
-    mo = vlib.model(lines)
-    for c, a in zip(cases, io):
-        bad, stats = oracle_script(c["ops"], a)
-        nontriv = bool(stats and stats["kept"] > 0)
-        rep.count("S:" + c["key"], nontriv,
-                  sample={"script": c["key"], "impl": a[:300]} if nontriv and rng.random() < 0.01 else None)
-        rep.bump("scripts")
-        if stats:
-            rep.bump("objects_freed", stats["freed"])
-            rep.bump("objects_freed_not_directly_destroyable", stats["cyclic_freed"])
-            rep.bump("gc_freeing_some_keeping_some", stats["kept"])
-        if bad:
-            rep.violation("gcscript:" + c["key"], bad, {"op": "gcscript " + c["key"], "impl": a[:1000]})
-    vlib.compare(rep, cases, io, mo, label="gc script")
+    def script_stream():
+        for sc in CORPUS_SCRIPTS:
+            yield sc.split(" ")
+        for sc in ring_scripts():
+            yield sc
+        for n in (1, 2):
+            for sc in exhaustive_shapes(n):
+                yield sc
+        if thorough:
+            for sc in exhaustive_shapes(3):
+                yield sc
+            for sc in exhaustive_handles4():
+                yield sc
+        else:
+            for sc in sampled_exhaustive3(rng, 2500):
+                yield sc
+        for _ in range(1500 if not thorough else 60000):
+            yield random_script(rng, rng.randrange(4, 46), rng.choice((3, 4, 6, 10)))
+        for _ in range(1500 if not thorough else 60000):
+            yield random_shape(rng, rng.choice((3, 3, 4, 4, 5, 6)))
+
+    stream = script_stream()
+    while True:
+        batch = list(itertools.islice(stream, 100000))
+        if not batch:
+            break
+        cases = [{"key": " ".join(sc), "ops": sc} for sc in batch]
+        lines = ["gcscript " + c["key"] for c in cases]
+        io = vlib.impl(lines)
+        mo = vlib.model(lines)
+        for c, a in zip(cases, io):
+            bad, stats = oracle_script(c["ops"], a)
+            nontriv = bool(stats and stats["kept"] > 0)
+            rep.count("S:" + c["key"], nontriv,
+                      sample={"script": c["key"], "impl": a[:300]} if nontriv and rng.random() < 0.01 else None)
+            rep.bump("scripts")
+            if stats:
+                rep.bump("objects_freed", stats["freed"])
+                rep.bump("objects_freed_not_directly_destroyable", stats["cyclic_freed"])
+                rep.bump("gc_freeing_some_keeping_some", stats["kept"])
+            if bad:
+                rep.violation("gcscript:" + c["key"], bad, {"op": "gcscript " + c["key"], "impl": a[:1000]})
+        vlib.compare(rep, cases, io, mo, label="gc script")
 
     # ---------------- (c) schedule invisibility ----------------
     gen = ProgGen(rng)
